@@ -112,6 +112,14 @@ func (p *Prog) lookupFunc(key string) *types.Func {
 }
 
 func (p *Prog) ssaFunc(key string) *ssa.Function {
+	if strings.HasSuffix(key, ".init") {
+		// the package initialiser (global variable initialisers in dependency order)
+		if pk, ok := p.all[strings.TrimSuffix(key, ".init")]; ok {
+			if sp := p.ssaProg.Package(pk.Types); sp != nil {
+				return sp.Func("init")
+			}
+		}
+	}
 	f := p.lookupFunc(key)
 	if f == nil {
 		return nil
